@@ -5,7 +5,7 @@ cd "$(dirname "$0")/.."
 mkdir -p .build
 if [ -n "$(git -C /repo status --porcelain)" ]; then echo "/repo is dirty - refusing"; exit 3; fi
 rc_all=0
-for c in C17 C19 C15 C14 C18 C20 C16 C01 C05 C03 C10 C11 C12 C02 C06 C07 C08 C13; do
+for c in C17 C19 C15 C14 C18 C20 C16 C01 C05 C03 C10 C11 C12 C02 C06 C07 C08 C13 C04 C09; do
   s=$(date +%s)
   ./check $c --tier $tier > .build/all-$c.log 2>&1
   rc=$?
